@@ -43,7 +43,7 @@ def AttributedT (c : E2ECfg) (g : GlobalLic) (tree : ETree) (p : List String) (i
   SpecItem (chainOf c g p) (fileInfoOf c p (ownAt tree p)) it
 
 def HasNotice (c : E2ECfg) (g : GlobalLic) (tree : ETree) (p : List String) : Prop :=
-  ∃ it, AttributedT c g tree p it ∧ it.kind = .cpr ∧ it.value ≠ ""
+  ∃ it, AttributedT c g tree p it ∧ it.kind = .cpr ∧ isBlankStr it.value = false
 
 def HasLicence (c : E2ECfg) (g : GlobalLic) (tree : ETree) (p : List String) : Prop :=
   ∃ it, AttributedT c g tree p it ∧ it.kind = .lic ∧ c.keysOf it.value ≠ []
@@ -80,15 +80,15 @@ def TreeClauseD (c : E2ECfg) (g : GlobalLic) (tree : ETree) : Prop :=
 def TreeCompliant (tbl : LicenseMap) (c : E2ECfg) (g : GlobalLic) (tree : ETree) : Prop :=
   TreeClauseA c g tree ∧ TreeClauseB tbl c g tree ∧ TreeClauseC tbl c g tree ∧ TreeClauseD c g tree
 
-/-- hypothesis of the verdict theorem: no copyright line attributed to a covered file is the empty
-    string (`SPDX-FileCopyrightText = ""` in a REUSE.toml is the only way to get one; the report then
-    depends on how many there are: one is no notice, two are — `joinedNonEmpty`) -/
+/-- hypothesis of the verdict theorem: no copyright line attributed to a covered file is blank
+    (`SPDX-FileCopyrightText = ""` in a REUSE.toml is the only way to get one; the report does not
+    count it as a notice — `joinedNonEmpty` — while the tree-level clause (a) counts attributed items) -/
 def NoEmptyNotice (c : E2ECfg) (g : GlobalLic) (tree : ETree) : Prop :=
-  ∀ p it, CoveredT c tree p → AttributedT c g tree p it → it.kind = .cpr → it.value ≠ ""
+  ∀ p it, CoveredT c tree p → AttributedT c g tree p it → it.kind = .cpr → isBlankStr it.value = false
 
 /-- the same on the model's output (what the driver evaluates) -/
 def noEmptyNoticeB (files : List EFile) : Bool :=
-  files.all fun f => (itemsOf f.infos).all fun it => !(it.kind == .cpr && it.value == "")
+  files.all fun f => (itemsOf f.infos).all fun it => !(it.kind == .cpr && isBlankStr it.value)
 
 /-- the own source of the regular file at `dir ++ [name]` with bytes `content`: the bytes of
     `name.license` when that is a regular file; unreadable when it is a directory; the file itself
